@@ -214,3 +214,144 @@ pub fn drive(args: &[String]) {
     out.flush();
     println!("STATS {}", json!({"scenarios": n_sc}));
 }
+
+/// C05 exact distribution: the table of draws of the REAL sampler, explored over its own states.
+/// Breadth first over the distinct real states (reservoir, i, skip_until) reached after n adds, n = k .. 4k+1;
+/// in every state every outcome of the add's draws is executed on a clone:
+///   k <= n < 4k : one uniform draw over n+1 values (`Below(j, n+1)`), weight 1 each;
+///   n = 4k      : the first gap from each of the 4k+1 equiprobable unit cells; the code itself decides whether
+///                 the item is accepted; accepted: k slot draws of weight 1, skipped: one row of weight k.
+/// Nothing here presupposes WHICH slot or item the code picks, only the call pattern of the mechanism spec; if the
+/// code asks for randomness the script does not provide (or consumes the typed draws of the switch differently),
+/// the table stops at that level and the pipeline does not evaluate the exact-distribution clause from there on
+/// (reported as drift, never as a verdict).
+pub fn dist(args: &[String]) {
+    let k = arg_u64(args, "--k", 1) as usize;
+    let mut out = Out::create(arg(args, "--out").expect("--out"));
+    let t = 4 * k;
+    let mu = (4 * k + 1) as u64;
+    let key = |r: &RS| (r.reservoir().clone(), r.i(), r.verif_skip_until());
+    let mut r0 = RS::new(k, ScriptRng);
+    script_load(&[]);
+    let mut rows: Vec<Value> = vec![];
+    let mut tid = 0u64;
+    // fill-up phase: no draw, one row of weight 1 per add
+    for x in 0..k {
+        let res_pre = r0.reservoir().clone();
+        r0.add(x as u64);
+        tid += 1;
+        rows.push(json!({"k":"row","tid":tid,"n_pre":x,"res_pre":res_pre,"res_post":r0.reservoir(),"w":1}));
+    }
+    let mut frontier: Vec<RS> = vec![r0];
+    let mut complete_upto = k as u64; // rows complete for every n_pre < complete_upto
+    let mut deviation = Value::Null;
+    let mut states = 1u64;
+    'levels: for n in k..=t {
+        let mut next: Vec<RS> = vec![];
+        let mut seen = std::collections::HashSet::new();
+        let mut level_rows: Vec<Value> = vec![];
+        for st in &frontier {
+            let res_pre = st.reservoir().clone();
+            // (script, expected words if the item is accepted, expected words if it is skipped)
+            let mut cases: Vec<(Vec<Intent>, u64)> = vec![];
+            if n < t {
+                for j in 0..=(n as u64) {
+                    cases.push((vec![Intent::Below(j, n as u64 + 1)], 1));
+                }
+            } else {
+                for c in 0..mu {
+                    for j in 0..(k as u64) {
+                        cases.push((vec![Intent::Unit52(unit52_of(2 * c + 1, 2 * mu)), Intent::Unit52(unit52_of(63, 64)), Intent::Below(j, k as u64)], 3));
+                    }
+                }
+            }
+            let mut skip_cell = u64::MAX;
+            for (ci, (script, words_if_accepted)) in cases.iter().enumerate() {
+                let cell = if n < t { u64::MAX - 1 } else { ci as u64 / k as u64 };
+                if cell == skip_cell {
+                    continue; // the item was skipped for this cell: a single row of weight k stands for the k slot draws
+                }
+                let mut c = st.clone();
+                script_load(script);
+                note_call(json!({"rsdist": {"k": k, "n": n, "case": ci}}));
+                let r = guarded(|| c.add(n as u64));
+                let (left, mm, consumed) = script_status();
+                script_load(&[]);
+                let accepted = c.reservoir().iter().any(|x| *x == n as u64);
+                // plain level: the code may not ask for more randomness than the one scripted draw (an unscripted word
+                // would make the outcome depend on something the table does not enumerate); asking for LESS is no
+                // deviation - no earlier level handed out an unscripted word either, so the outcome is then simply
+                // deterministic and the table says so.  Switch level: the three typed draws must be consumed exactly
+                // (ScriptRng cannot see which distribution a word is wanted for).
+                let pattern_ok = r.is_ok() && mm.is_none()
+                    && if n < t { consumed <= 1 } else if accepted { consumed == *words_if_accepted && left == 0 } else { consumed == 1 && left == 2 };
+                if !pattern_ok {
+                    deviation = json!({"n": n, "case": ci, "panic": r.err(), "mismatch": mm, "words": consumed, "left": left, "accepted": accepted});
+                    break 'levels;
+                }
+                let w = if n == t && !accepted { skip_cell = cell; k as u64 } else { 1 };
+                tid += 1;
+                level_rows.push(json!({"k":"row","tid":tid,"n_pre":n,"res_pre":res_pre,"res_post":c.reservoir(),"w":w}));
+                if seen.insert(key(&c)) {
+                    next.push(c);
+                }
+            }
+        }
+        rows.extend(level_rows);
+        complete_upto = n as u64 + 1;
+        states += next.len() as u64;
+        frontier = next;
+    }
+    out.put(&json!({"k":"hdr","kk":k,"tmax":complete_upto.saturating_sub(1)}));
+    for r in &rows {
+        out.put(r);
+    }
+    out.flush();
+    println!("STATS {}", json!({"rows": rows.len(), "states": states, "levels_complete": complete_upto, "deviation": deviation}));
+}
+
+/// C05 measured clause (gross, deterministic for a given seed): inclusion counts per stream position over `runs`
+/// independently seeded ChaCha samplers, for (k, n) in the exact regime (n <= 4k+1) and a few in the gap regime.
+pub fn freq(args: &[String]) {
+    use rand::SeedableRng;
+    use rand_chacha::ChaChaRng;
+    let seed = arg_u64(args, "--seed", 1);
+    let runs = arg_u64(args, "--runs", 3000);
+    let thorough = args.iter().any(|a| a == "--thorough");
+    let mut out = Out::create(arg(args, "--out").expect("--out"));
+    out.put(&json!({"k":"hdr","s":"rsfreq"}));
+    let mut grid: Vec<(usize, usize)> = vec![(1, 2), (1, 4), (1, 5), (2, 3), (2, 8), (2, 9), (3, 13), (5, 6), (5, 21), (16, 17), (16, 64), (16, 65),
+                                             (16, 80), (16, 96), (64, 257), (64, 320), (64, 384)];
+    if thorough {
+        grid.extend([(1, 3), (2, 5), (3, 4), (3, 12), (4, 17), (8, 9), (8, 32), (8, 33), (8, 48), (32, 129), (32, 160), (32, 192), (64, 65), (64, 256), (100, 401), (100, 600)]);
+    }
+    let mut tid = 0u64;
+    for (k, n) in grid {
+        tid += 1;
+        note_call(json!({"rsfreq": {"k": k, "n": n}}));
+        let r = guarded(|| {
+            let mut counts = vec![0u64; n];
+            let mut sizes_ok = true;
+            for run in 0..runs {
+                let mut s = [0u8; 32];
+                s[..8].copy_from_slice(&(seed.wrapping_mul(1_000_003).wrapping_add(run)).to_le_bytes());
+                s[8..16].copy_from_slice(&((k as u64) << 32 | n as u64).to_le_bytes());
+                let mut smp = pdatastructs::reservoirsampling::ReservoirSampling::<u64, ChaChaRng>::new(k, ChaChaRng::from_seed(s));
+                for x in 0..n as u64 {
+                    smp.add(x);
+                }
+                sizes_ok &= smp.reservoir().len() == k.min(n);
+                for x in smp.reservoir() {
+                    counts[*x as usize] += 1;
+                }
+            }
+            (counts, sizes_ok)
+        });
+        match r {
+            Ok((counts, sizes_ok)) => out.put(&json!({"k":"p","s":"rsfreq","tid":tid,"sc":tid,"kk":k,"n":n,"runs":runs,"counts":counts,"sizes_ok":sizes_ok,"res":"ok"})),
+            Err(m) => out.put(&json!({"k":"p","s":"rsfreq","tid":tid,"sc":tid,"kk":k,"n":n,"runs":runs,"counts":[],"sizes_ok":false,"res":"panic","panic":m})),
+        }
+    }
+    out.flush();
+    println!("STATS {}", json!({"cases": tid, "runs": runs}));
+}
